@@ -189,7 +189,13 @@ func TestC04_StateMachine(t *testing.T) {
 		}
 		t.Repeat(map[string]func(*rapid.T){
 			"write": func(t *rapid.T) {
-				x := gen.Bytes(gen.LenAround(64, 200)).Draw(t, "x")
+				// mostly short writes around the block size; one in five is 0.9-2.5 KiB (the unprocessed tail then lives in
+				// the back of a large buffer with spare capacity behind it)
+				xl := gen.LenAround(64, 200)
+				if gen.OneIn(t, "bigwrite", 5) {
+					xl = rapid.IntRange(900, 2500)
+				}
+				x := gen.Bytes(xl).Draw(t, "x")
 				hostileWrite(t, h, x, rapid.SampledFrom([]int{0, 0, 7, 64, 100}).Draw(t, "wspare"))
 				model = append(model, x...)
 				hist = append(hist, fmt.Sprintf("W%d", len(x)))
